@@ -76,6 +76,7 @@ for T in $TARGETS; do
     c25_raw)    OPTS="-max_len=48000"; EXTRA=("$ROOT/replays/C25/seeds") ;;
   esac
   # shellcheck disable=SC2086
+  mkdir -p "$HERE/seeds/$T"
   timeout -k 10 7200 "$BIN" "$WORK/corpus" "$HERE/seeds/$T" "${EXTRA[@]}" \
       -runs="$N" -seed="$SEED" -len_control=0 -timeout=120 -rss_limit_mb=4096 \
       -artifact_prefix="$WORK/artifacts/" -print_final_stats=1 $OPTS > "$WORK/log.txt" 2>&1
